@@ -36,6 +36,8 @@ type c14Draw struct {
 	X, Y   float64
 	View   []float64
 	Z      int
+	Shape  string  `json:",omitempty"` // generator class of the shape
+	Size   float64 `json:",omitempty"` // its nominal size
 }
 
 type c14Case struct {
@@ -149,7 +151,7 @@ func genC14Once(kind string, r *core.Rng) *c14Case {
 			if kind == "rule" {
 				sk = core.PickS(r, []string{"selfx", "nested"})
 			}
-			d := c14Draw{Data: dataCopy(c14Shape(r, size, sk)), X: c.W * r.Range(0.3, 0.7), Y: c.H * r.Range(0.3, 0.7), Rule: r.Intn(2), Z: core.PickI(r, []int{0, 0, 0, 1, -1})}
+			d := c14Draw{Data: dataCopy(c14Shape(r, size, sk)), X: c.W * r.Range(0.3, 0.7), Y: c.H * r.Range(0.3, 0.7), Rule: r.Intn(2), Z: core.PickI(r, []int{0, 0, 0, 1, -1}), Shape: sk, Size: size}
 			col := func() []int {
 				a := 255
 				if n == 1 && c.CS == 0 && r.Chance(0.3) {
